@@ -191,3 +191,104 @@ func inLoop(ins ssa.Instruction) bool {
 }
 
 var _ = token.NoPos
+
+// isErrCtor: a call that always yields a non-nil error (errors.New, fmt.Errorf and the module's own errors package).
+func isErrCtor(v ssa.Value) bool {
+	c, ok := v.(*ssa.Call)
+	if !ok {
+		return false
+	}
+	switch callName(c) {
+	case "errors.New", "fmt.Errorf", "/errors.New", "/errors.Errorf", "/errors.Wrap", "/errors.Wrapf", "/errors.WithStack",
+		"github.com/pkg/errors.New", "github.com/pkg/errors.Errorf":
+		return true
+	}
+	return false
+}
+
+// successReturnWithout returns a Return of fn whose error result (last result) may be nil on some path from the
+// entry that does not execute an instruction satisfying barrier. Phi-merged error values are followed edge by edge,
+// so `err = errors.New(…); break` branches merging with the checked path are not reported.
+func successReturnWithout(fn *ssa.Function, barrier func(ssa.Instruction) bool) (ssa.Instruction, string) {
+	if len(fn.Blocks) == 0 {
+		return nil, ""
+	}
+	// endReach[b]: the end of b is reachable from the entry without passing a barrier
+	endReach := map[*ssa.BasicBlock]bool{}
+	var visit func(b *ssa.BasicBlock)
+	seen := map[*ssa.BasicBlock]bool{}
+	visit = func(b *ssa.BasicBlock) {
+		if seen[b] {
+			return
+		}
+		seen[b] = true
+		for _, ins := range b.Instrs {
+			if barrier(ins) {
+				return
+			}
+		}
+		endReach[b] = true
+		for _, s := range b.Succs {
+			visit(s)
+		}
+	}
+	visit(fn.Blocks[0])
+	var mayNil func(v ssa.Value, depth int) (bool, string)
+	mayNil = func(v ssa.Value, depth int) (bool, string) {
+		if depth > 6 {
+			return true, "deep phi"
+		}
+		switch x := v.(type) {
+		case *ssa.Const:
+			if x.IsNil() {
+				return true, "nil"
+			}
+			return false, ""
+		case *ssa.Phi:
+			for i, e := range x.Edges {
+				if !endReach[x.Block().Preds[i]] {
+					continue
+				}
+				if ok, why := mayNil(e, depth+1); ok {
+					return true, why
+				}
+			}
+			return false, ""
+		case *ssa.MakeInterface:
+			return false, ""
+		}
+		if isErrCtor(v) {
+			return false, ""
+		}
+		if ins, ok := v.(ssa.Instruction); ok {
+			// defined before any barrier on some path?
+			if reachesFromEntryWithout(fn, func(i ssa.Instruction) bool { return i == ins }, barrier) != nil {
+				return true, v.Name() + " = " + v.String()
+			}
+			return false, ""
+		}
+		return true, v.Name()
+	}
+	var wit ssa.Instruction
+	why := ""
+	allInstrs(fn, func(ins ssa.Instruction) {
+		ret, ok := ins.(*ssa.Return)
+		if !ok || wit != nil || !seen[ret.Block()] {
+			return
+		}
+		// the return itself must be reachable without a barrier in its own block
+		for _, x := range ret.Block().Instrs {
+			if barrier(x) {
+				return
+			}
+		}
+		rs := retResults(ret)
+		if len(rs) == 0 {
+			return
+		}
+		if ok, w := mayNil(rs[len(rs)-1], 0); ok {
+			wit, why = ret, w
+		}
+	})
+	return wit, why
+}
